@@ -2,7 +2,13 @@ package checks
 
 import (
 	"context"
+	"encoding/json"
 	"fmt"
+	"os"
+	"os/exec"
+	"path/filepath"
+	"regexp"
+	"sort"
 	"strings"
 	"time"
 
@@ -338,7 +344,7 @@ func runC15(c *explore.Ctx) {
 	c.Level = "model_checking"
 	c.Rule = "E3: stateless schedule search (DFS over the choice points of the cooperative scheduler: every mutex/cond/channel/select/waitgroup/once/atomic-flag/conn-I/O operation of the instrumented broker) of 9 concurrent scenarios (take-overs, subscribe/publish/kill, QoS2 flow vs acks vs DISCONNECT, Stop vs CONNECT vs API publish, TerminateSession vs reconnect vs sweeper tick, API calls vs client publish, delayed-will timer vs Stop, stalled reader take-over, client killed with a full window), all schedules with <=1 (quick) / <=2 (thorough) deviations (a deviation demotes the running thread until all others are blocked; select alternatives are enumerated for free). After every execution: no panic, no deadlock, every request answered or its socket closed, Stop returns with listener and connections closed, Unload and OnStop exactly once, no broker goroutine alive. states = choice points visited, transitions = executions."
 	c.Trusted = []string{"vsched: interleavings only at synchronisation operations (complete for data-race-free code); channel commit semantics as in the gc runtime", "memconn (no TCP RST modelling)"}
-	c.Assumptions = []string{"data-race freedom itself is not decided by this check (a cooperative scheduler's hand-offs are happens-before edges); see DESIGN.md C15"}
+	c.Assumptions = []string{"data-race freedom cannot be decided by the schedule search (a cooperative scheduler's hand-offs are happens-before edges); it is watched by a separate free-running pass: the uninstrumented broker under the Go race detector, driven over loopback TCP by concurrent subscribers, publishers, take-overs, administrative calls and Stop (coverage.race_pass); that pass is a dynamic detector on the schedules that happened, not an exhaustive search"}
 	bound := 1
 	if !c.Quick() {
 		bound = 2
@@ -363,8 +369,86 @@ func runC15(c *explore.Ctx) {
 		obs := &c15Obs{}
 		schedScenario(c, sc.name, bound, func() [][3]string { return obs.problems }, func() string { return obs.outcome }, func() { *obs = c15Obs{}; sc.body(obs) }, nil)
 	}
+	if !c.IsWorker() {
+		c15RacePass(c)
+	}
 	c.Count("states", c.Get("choice_points"))
 	c.Count("transitions", c.Get("executions"))
 	c.Count("traces_validated_against_impl", c.Get("executions"))
 	c.Sample(map[string]any{"scenarios": len(c15Scenarios()), "deviation_bound": bound})
+}
+
+// ---- free-running pass under the Go race detector
+
+var raceFrame = regexp.MustCompile(`^  (\S.*)\(\)$`)
+
+// c15RacePass runs the race-detector build of the uninstrumented broker (built by
+// run.sh, path in VERIF_RACER) and turns every report into a violation.
+func c15RacePass(c *explore.Ctx) {
+	bin := os.Getenv("VERIF_RACER")
+	if bin == "" {
+		c.Extra["race_pass"] = "not run (race-detector build unavailable)"
+		return
+	}
+	dir, err := os.MkdirTemp(filepath.Join(c.Verif, ".work"), "race-")
+	if err != nil {
+		c.Extra["race_pass"] = "not run: " + err.Error()
+		return
+	}
+	defer os.RemoveAll(dir)
+	rounds := 8
+	if !c.Quick() {
+		rounds = 60
+	}
+	cmd := exec.Command(bin, "-rounds", fmt.Sprint(rounds), "-out", filepath.Join(dir, "sum.json"))
+	cmd.Env = append(os.Environ(), "GORACE=log_path="+filepath.Join(dir, "race")+" halt_on_error=0 exitcode=0 history_size=3", "GOMAXPROCS=8")
+	done := make(chan error, 1)
+	var out []byte
+	go func() { var e error; out, e = cmd.CombinedOutput(); done <- e }()
+	select {
+	case err = <-done:
+	case <-time.After(10 * time.Minute):
+		cmd.Process.Kill()
+		c.Extra["race_pass"] = "driver did not finish within 10 minutes (not judged)"
+		return
+	}
+	sum := map[string]any{}
+	if b, e := os.ReadFile(filepath.Join(dir, "sum.json")); e == nil {
+		json.Unmarshal(b, &sum)
+	} else {
+		c.Extra["race_pass"] = fmt.Sprintf("driver failed: %v %s", err, trimTo(string(out), 300))
+		return
+	}
+	reports := 0
+	logs, _ := filepath.Glob(filepath.Join(dir, "race.*"))
+	for _, lf := range logs {
+		b, _ := os.ReadFile(lf)
+		for _, blk := range strings.Split(string(b), "==================") {
+			if !strings.Contains(blk, "WARNING: DATA RACE") {
+				continue
+			}
+			reports++
+			// first gmqtt frame of each of the two accesses
+			var fns []string
+			for _, part := range strings.Split(blk, "\n\n") {
+				if !(strings.HasPrefix(strings.TrimSpace(part), "Write at") || strings.HasPrefix(strings.TrimSpace(part), "Read at") || strings.HasPrefix(strings.TrimSpace(part), "Previous write at") || strings.HasPrefix(strings.TrimSpace(part), "Previous read at") || strings.HasPrefix(strings.TrimSpace(part), "WARNING")) {
+					continue
+				}
+				for _, l := range strings.Split(part, "\n") {
+					if m := raceFrame.FindStringSubmatch(l); m != nil && strings.Contains(m[1], "DrmagicE/gmqtt") {
+						fns = append(fns, strings.TrimPrefix(m[1], "github.com/DrmagicE/gmqtt/"))
+						break
+					}
+				}
+			}
+			sort.Strings(fns)
+			cl := "data-race:" + strings.Join(fns, "|")
+			c.Violate("race-free", cl, map[string]any{"pass": "free-running race detector", "rounds": rounds}, "no report from the race detector", trimTo(blk, 1500))
+		}
+	}
+	if n, _ := sum["stop_did_not_return"].(float64); n > 0 {
+		c.Violate("stop", "free-running:stop-did-not-return", map[string]any{"pass": "free-running race detector", "rounds": rounds}, "Stop returns", fmt.Sprintf("%v of %d rounds", n, rounds))
+	}
+	sum["race_reports"] = reports
+	c.Extra["race_pass"] = sum
 }
